@@ -228,7 +228,7 @@ func (g *genState) paramValue(i int, name string) Arg {
 	case "todo":
 		ch := Chunk{Kind: "todo"}
 		if src.Bool("todomsg") {
-			ch.HasDef, ch.Def = true, choice.Pick(src, "todomsgv", []string{"in development", "not implemented (yet)", "a, b (c)", "see docs) then (retry"})
+			ch.HasDef, ch.Def = true, choice.Pick(src, "todomsgv", []string{"in development", "not implemented (yet)", "a, b (c)", "see docs) then (retry", "quota reached: 90%", "%d items %s"})
 		}
 		return Arg{Kind: "pattern", Chunks: []Chunk{ch}}
 	case "fn":
@@ -360,7 +360,14 @@ func (g *genState) service(name string, i int) Svc {
 				full.Fields[k].V.S = name
 			}
 		}
-		full.Getter = ""
+		// a placeholder may keep its getter, even one that another service uses too: it is not generated
+		if full.Getter != "" && i > 0 && src.Bool("stodogetterdup") {
+			for _, other := range g.cfg.Services {
+				if other.Getter != "" {
+					full.Getter = other.Getter
+				}
+			}
+		}
 		full.MustGetter = nil
 		return full
 	}
@@ -429,7 +436,7 @@ func (g *genState) service(name string, i int) Svc {
 	if !g.o.NoScopes {
 		s.Scope = choice.Pick(src, "sscope", []string{"", "", "shared", "contextual", "non_shared"})
 	}
-	if kind != "type" && kind != "leaf" && src.Chance("sgetter", 1, 3) {
+	if kind != "type" && (kind != "leaf" || s.Value != "") && src.Chance("sgetter", 1, 3) {
 		// distinct services need distinct getters (names may differ only in case or punctuation)
 		s.Getter = "Get" + goIdent(name) + strconv.Itoa(i)
 		if src.Bool("sgettype") {
